@@ -122,7 +122,10 @@ def populate(obj, n, is_model):
            'I': np.arange(n, dtype=np.int32) + 20, 'U': np.arange(n, dtype=np.uint8) + 200, 'H': np.arange(n, dtype=np.float32) + 0.25,
            'J': np.arange(n, dtype=np.int16) - 3,
            # variables named like members of the object (a property, a method): variables all the same
-           'size': np.arange(n, dtype=float) - 7.25, 'copy': np.arange(n, dtype=np.int64) + 70}
+           'size': np.arange(n, dtype=float) - 7.25, 'copy': np.arange(n, dtype=np.int64) + 70,
+           # ... and like the instance's own plain attributes (reading obj.span / obj.index still gives the attribute; only
+           # assignment through the attribute goes to the variable)
+           'span': np.arange(n, dtype=float) * 2 + 0.5, 'index': np.arange(n, dtype=np.int64) - 90}
     if not is_model:
         # a plain container may hold variables that merely share the names of a model's solution records: ordinary variables
         ids['status'] = np.array([f'q{i}' for i in range(n)], dtype='<U2')
